@@ -377,7 +377,7 @@ fn run_family(ctx: &Ctx, sub: &str, f: &Family, limit: usize, cpu_factor: f64, p
 }
 
 pub fn run(ctx: &Ctx) {
-    ctx.set_rule("input families f(n) = header ++ prefix ++ n x (open^depth ++ unit ++ close^depth) ++ suffix: 18 fixed families (nested collections up to depth 120 repeated, with/without member names, unclosed, multi-valued; wide sets; sets of collections; many attributes distinct/same name; many groups; many members; maximal 65535-octet values; long names) each also cut at 60 %, plus proptest-generated families (unit = 1-4 generated tokens with generated name/value lengths and numbered names, depth 0-120, inside or outside a collection, closed or not, cut or not). Each family is parsed at sizes 8 KiB x 2^i up to 256 KiB (quick) / 1 MiB (thorough; 4 MiB for three families) - every parse is one evaluation - under a counting global allocator: bytes requested <= 1024/input byte + 256 KiB, peak live <= 512/input byte + 256 KiB, and per doubling (pairs above 16 KiB, unit <= 1/4 of the input) bytes / calls / peak grow by <= x2.6 (+256 KiB); fragmentation invariance: under one-byte reads the CPU time per input byte for 65535-octet values is <= x6 that for 500-octet values (both parsers); CPU backstop: thread CPU time per byte at the largest size <= x16 (quick) / x40 (thorough) the per-byte time at 8 KiB (best of repetitions, re-measured before reporting). Sizes are escalated only while the family is within bounds. Non-trivial = family reaches >= 64 KiB and the parser consumed the whole input; distinct by family descriptor.");
+    ctx.set_rule("input families f(n) = header ++ prefix ++ n x (open^depth ++ unit ++ close^depth) ++ suffix: 18 fixed families (nested collections up to depth 120 repeated, with/without member names, unclosed, multi-valued; wide sets; sets of collections; many attributes distinct/same name; many groups; many members; maximal 65535-octet values; long names) each also cut at 60 %, plus proptest-generated families (unit = 1-4 generated tokens with generated name/value lengths and numbered names, depth 0-120, inside or outside a collection, closed or not, cut or not). Each family is parsed at sizes 8 KiB x 2^i up to 256 KiB (quick) / 1 MiB (thorough; 4 MiB for three families) - every parse is one evaluation - under a counting global allocator: bytes requested <= 1024/input byte + 256 KiB, peak live <= 512/input byte + 256 KiB, and per doubling (pairs above 16 KiB, unit <= 1/4 of the input) bytes / calls / peak grow by <= x2.6 (+256 KiB); work inside logging statements: with a `log` logger enabled at trace level every fixed family is parsed at 16-128 KiB and the octets of log text rendered during the parse (a deterministic measure of work) must stay <= 256 per input byte + 256 KiB and grow by <= x2.6 per doubling; fragmentation invariance: under one-byte reads the CPU time per input byte for 65535-octet values is <= x6 that for 500-octet values (both parsers); CPU backstop: thread CPU time per byte at the largest size <= x16 (quick) / x40 (thorough) the per-byte time at 8 KiB (best of repetitions, re-measured before reporting). Sizes are escalated only while the family is within bounds. Non-trivial = family reaches >= 64 KiB and the parser consumed the whole input; distinct by family descriptor.");
     ctx.assume("CPU cost without allocation is only bounded by the coarse per-byte backstop (timing is too noisy for a tight ratio test)");
     let limit = ctx.tier.pick(256 << 10, 1 << 20);
     let cpu_factor = ctx.tier.pick(16.0, 40.0);
@@ -395,6 +395,16 @@ pub fn run(ctx: &Ctx) {
             });
         }
     });
+    // work done inside the parser's logging statements: with a logger enabled at trace level (as
+    // RUST_LOG=trace does) the text rendered per parse is work done while parsing, and it is a
+    // deterministic measure of it
+    set_trace_logging(true);
+    for f in fixed_families() {
+        if let Err(fail) = judge_log_work(ctx, &f) {
+            ctx.failure("trace-logging", &fail, json!({"trace_logging": true, "family": f.to_json()}));
+        }
+    }
+    set_trace_logging(false);
     // depth invariance: linear cost means the cost per input byte does not depend on how deeply the
     // same material is nested (a per-level copy shows up as a factor ~depth/2)
     for (what, open, inner) in [("members", BEG_M.to_vec(), ADD_INT.to_vec()), ("no member names", BEG.to_vec(), vec![]), ("multi-valued members", [BEG_M, ADD_INT].concat(), ADD_INT.to_vec())] {
@@ -466,7 +476,48 @@ pub fn run(ctx: &Ctx) {
     run_prop(ctx, "generated-families", shards, per, generated_family, |f, p| run_family(ctx, "generated", f, limit, cpu_factor, p), |f| f.to_json());
 }
 
+/// log text rendered by one parse of `input` on this thread (trace logging must be on)
+fn rendered_by_parse(input: &[u8]) -> u64 {
+    let before = rendered_log_octets();
+    let data = input.to_vec();
+    let _ = catch(move || IppParser::new(IppReader::new(std::io::Cursor::new(data))).parse().is_ok());
+    rendered_log_octets() - before
+}
+
+pub const LOG_OCTETS_PER_BYTE: u64 = 256;
+
+fn judge_log_work(ctx: &Ctx, f: &Family) -> Judge {
+    let mut prev: Option<(usize, u64)> = None;
+    let mut size = 16 << 10;
+    while size <= 128 << 10 {
+        let input = f.input((size / f.unit_len()).max(1));
+        let r = rendered_by_parse(&input);
+        ctx.eval();
+        ctx.nontrivial(hash64(&("log-work", &f.name, size)));
+        ctx.label("trace logging on: rendered log text measured");
+        if r > LOG_OCTETS_PER_BYTE * input.len() as u64 + ABS_SLACK {
+            return Err(Fail::new("C15/log-rendering-amplification", format!("family '{}': with a logger enabled at trace level, parsing {} input bytes renders {} octets of log text ({} per input byte; bound {LOG_OCTETS_PER_BYTE} per input byte + 256 KiB)", f.name, input.len(), r, r / input.len().max(1) as u64)));
+        }
+        if let Some((pl, pr)) = prev {
+            let growth = input.len() as f64 / pl as f64;
+            if f.unit_len() * 4 <= pl && r as f64 > RATIO_MAX / 2.0 * growth * pr as f64 + (64 << 10) as f64 {
+                return Err(Fail::new("C15/log-rendering-amplification", format!("family '{}': with a logger enabled at trace level, the log text rendered while parsing grows from {pr} octets ({pl} input bytes) to {r} octets ({} input bytes): more than x{:.1} for an input x{growth:.2}", f.name, input.len(), RATIO_MAX / 2.0 * growth)));
+            }
+        }
+        prev = Some((input.len(), r));
+        size *= 2;
+    }
+    Ok(())
+}
+
 pub fn replay(ctx: &Ctx, sub: &str, case: &Value) -> Judge {
+    if case.get("trace_logging").is_some() {
+        let f = Family::from_json(case.get("family").unwrap_or(&Value::Null)).ok_or_else(|| Fail::new("bad-replay", "family"))?;
+        set_trace_logging(true);
+        let r = judge_log_work(ctx, &f);
+        set_trace_logging(false);
+        return r;
+    }
     if case.get("trickle").is_some() {
         println!("the fragmentation-invariance relation is a timing comparison; re-run ./check C15 quick to re-judge it");
         return Ok(());
